@@ -13,6 +13,7 @@ def check(ctx):
     n4 = UA.check_number_ops(ctx, rep)
     rep.floor("Number + - * / obligations", n4, 10)
     UA.check_unit_identity(ctx, rep)
+    UA.check_approx_eq_symmetric(ctx, rep)
     n5 = UA.check_table(ctx, rep)
     rep.floor("units in the table", n5, 400)
     rep.note("Not decided: numerical accuracy (rounding of the conversion and of its inverse), approx_eq's tolerance, the name-matching fall-backs of "
